@@ -1053,7 +1053,17 @@ pub fn c17(r: &mut Rng, t: u32, n: usize) -> Vec<Value> {
 pub fn c19_ops(r: &mut Rng, t: u32, n: usize) -> Vec<Value> {
     let mut v = vec![];
     while v.len() < n {
-        match r.below(11) {
+        match r.below(14) {
+            11 | 12 | 13 => {
+                let mut e = match r.below(5) {
+                    0 => c02(r, t, 1),
+                    1 => c03(r, t, 1),
+                    2 => c04(r, t, 1),
+                    3 => c05(r, t, 1),
+                    _ => c11(r, t, 1),
+                };
+                v.append(&mut e);
+            }
             0 | 1 => v.push(set_mode(r, t)),
             2 => v.push(json!({"ev": "get", "t": t})),
             3 => {
@@ -1078,6 +1088,17 @@ pub fn c19_ops(r: &mut Rng, t: u32, n: usize) -> Vec<Value> {
                 // x / 2 with x odd at scale 18: tie in the 19th place
                 let x = r.range(-99, 99) as i128 * 2 + 1;
                 v.push(bin(t, "div", dj(x, 18), "dec", dj(2, 0), "dec", 0, 0));
+            }
+            8 => {
+                // any operation class of the rounding properties (C02-C05, C11), run under this thread's current mode
+                let mut e = match r.below(5) {
+                    0 => c02(r, t, 1),
+                    1 => c03(r, t, 1),
+                    2 => c04(r, t, 1),
+                    3 => c05(r, t, 1),
+                    _ => c11(r, t, 1),
+                };
+                v.append(&mut e);
             }
             9 => {
                 // 256-bit paths: (10^20 + 2k + 1) * 5 * 10^20 at 11 + 12 fractional digits (tie in the 19th place), and a wide quotient
